@@ -15,8 +15,10 @@ mod viol;
 mod wl_core;
 mod wl_kinds;
 mod wl_life;
+mod wl_prog;
 mod wl_race;
 mod wl_seq;
+mod wl_wrap;
 
 use arc_swap::strategy::test_strategies::FillFastSlots;
 use arc_swap::DefaultStrategy;
@@ -37,6 +39,8 @@ fn main() {
         "race" => cmd_race(&args),
         "life" => cmd_life(&args),
         "seq" => cmd_seq(&args),
+        "prog" => cmd_prog(&args),
+        "wrap" => cmd_wrap(&args),
         "kinds" => cmd_kinds(&args),
         "selftest" => cmd_selftest(&args),
         other => {
@@ -329,6 +333,114 @@ fn cmd_life(a: &Args) -> i32 {
             runner::violation("C02", "leak", format!("{} tracked object(s) alive after everything was dropped", live), &json!({"workload": "life", "seed": seed, "shard": shard}));
         }
     }
+    0
+}
+
+/// Progress workload (C08 / C09), TOKEN mode. Keys: prop=8|9, execs, seed, shard, strat, alloc.
+fn cmd_prog(a: &Args) -> i32 {
+    let p = wl_core::profile("c01");
+    tp::set_alloc_mode(parse_alloc(&a.str("alloc", "quarantine")));
+    sched::set_mode(Mode::Token);
+    let prop = a.u64("prop", 8) as u8;
+    let execs = a.u64("execs", 500);
+    let seed = a.u64("seed", 1);
+    let shard = a.u64("shard", 0);
+    let strat = a.str("strat", "both");
+    let replay_exec = a.get("replay_exec").map(|s| s.parse::<u64>().unwrap());
+    runner::start_watchdog(a.u64("stall_s", 15));
+    let mut hashes = std::collections::HashSet::new();
+    for n in 0..execs {
+        let exec_no = shard * 10_000_000 + n + 1;
+        let wseed = util::mix(seed.wrapping_mul(0x4000_0007) ^ prop as u64, exec_no);
+        let sseed = util::mix(wseed, 0x5EED);
+        let cfg = wl_prog::ProgCfg { exec_no, wseed, sseed, record: replay_exec == Some(exec_no) || a.flag("record"), prop };
+        let use_fill = match strat.as_str() {
+            "default" => false,
+            "fill" => true,
+            _ => exec_no % 3 == 0,
+        };
+        let o = if use_fill { wl_prog::run_prog::<Option<Tp<1>>, FillFastSlots>(&p, &cfg) } else { wl_prog::run_prog::<Option<Tp<1>>, DefaultStrategy>(&p, &cfg) };
+        runner::with(|r| {
+            r.execs += 1;
+            r.ops += o.ops as u64;
+            r.distinct.insert(o.trace_hash);
+        });
+        runner::count("steps", o.steps);
+        hashes.insert(o.trace_hash);
+        if replay_exec == Some(exec_no) {
+            break;
+        }
+        if replay_exec.is_none() && runner::with(|r| r.violations.len()) >= 5 {
+            break;
+        }
+    }
+    runner::count("distinct_nontrivial", hashes.len() as u64);
+    if hashes.len() <= 40_000 {
+        let hs: Vec<String> = hashes.iter().map(|h| format!("{:x}", h)).collect();
+        runner::with(|r| {
+            r.extra.insert("hashes".into(), json!(hs));
+        });
+    }
+    0
+}
+
+/// Generation wrap-around (C13): all 17 presets x 3 situations x 2 strategies, `reps` seeds each.
+fn cmd_wrap(a: &Args) -> i32 {
+    let p = wl_core::profile("c01");
+    tp::set_alloc_mode(parse_alloc(&a.str("alloc", "quarantine")));
+    let mode = match a.str("mode", "token").as_str() {
+        "token" => Mode::Token,
+        "free" => Mode::Free,
+        _ => panic!("mode=token|free"),
+    };
+    sched::set_mode(mode);
+    let reps = a.u64("reps", 2);
+    let seed = a.u64("seed", 1);
+    let shard = a.u64("shard", 0);
+    let nshards = a.u64("nshards", 1);
+    let val = a.str("val", "tp");
+    let only_k = a.get("k").map(|s| s.parse::<u64>().unwrap());
+    let replay_exec = a.get("replay_exec").map(|s| s.parse::<u64>().unwrap());
+    runner::start_watchdog(a.u64("stall_s", 15));
+    let mut hashes = std::collections::HashSet::new();
+    let mut n = 0u64;
+    for rep in 0..reps {
+        for k in 0..17u64 {
+            for situation in 0..3u8 {
+                for fill in [false, true] {
+                    n += 1;
+                    if n % nshards != shard % nshards {
+                        continue;
+                    }
+                    if only_k.is_some() && only_k != Some(k) {
+                        continue;
+                    }
+                    let exec_no = shard * 10_000_000 + n;
+                    let wseed = util::mix(seed.wrapping_mul(0x5000_000B) ^ rep, exec_no);
+                    let sseed = util::mix(wseed, 0x5EED);
+                    let cfg = wl_wrap::WrapCfg { exec_no, wseed, sseed, record: replay_exec == Some(exec_no) || a.flag("record"), mode, k, situation };
+                    let o = match (val.as_str(), fill) {
+                        ("tp", false) => wl_wrap::run_wrap::<Option<Tp<1>>, DefaultStrategy>(&p, &cfg),
+                        ("tp", true) => wl_wrap::run_wrap::<Option<Tp<1>>, FillFastSlots>(&p, &cfg),
+                        ("arc", false) => wl_wrap::run_wrap::<Option<std::sync::Arc<Payload>>, DefaultStrategy>(&p, &cfg),
+                        _ => wl_wrap::run_wrap::<Option<std::sync::Arc<Payload>>, FillFastSlots>(&p, &cfg),
+                    };
+                    runner::with(|r| {
+                        r.execs += 1;
+                        r.ops += o.ops as u64;
+                    });
+                    hashes.insert(util::mix(o.trace_hash, k << 8 | (situation as u64) << 1 | fill as u64));
+                    runner::distinct_str(&format!("k{}s{}f{}", k, situation, fill));
+                    if replay_exec == Some(exec_no) {
+                        return 0;
+                    }
+                }
+            }
+        }
+    }
+    runner::count("distinct_nontrivial", hashes.len() as u64);
+    runner::count("wrap.cells_distinct", runner::with(|r| r.distinct.len() as u64));
+    runner::count("wrap.wraps_inside_nested_replacement_load", sched::WRAPS_IN_PAYALL.load(std::sync::atomic::Ordering::Relaxed));
     0
 }
 
